@@ -5,6 +5,69 @@ from .engine import ok, finding, where
 from .facts import BrokenCheck
 
 
+CT = "tx3_tir::compile::CompiledTx"
+OPT_CT = "std::option::Option<%s>" % CT
+OPT_REF_CT = "std::option::Option<&%s>" % CT
+LOOP_FN = "tx3_resolver::resolve_tx"      # public entry point: the one name the resolve-loop rules are anchored to
+
+
+def same_crate_policy(crate, exclude=()):
+    """inline plain functions / inherent methods of `crate` (helpers a refactoring may have extracted), nothing else"""
+    def want(t, callee):
+        if callee["crate"] != crate or callee.get("impl_trait") or callee.get("trait_default"):
+            return False
+        if callee["path"] in exclude:
+            return False
+        return len(callee["blocks"]) <= 400
+    return want
+
+
+_ROLES = {}
+
+
+def resolver_roles(F):
+    """(loop fn path, pass fn path): the pass function is the function of tx3_resolver called from resolve_tx's body whose
+    own body - helpers of the crate inlined - calls Compiler::compile.  Found by role, not by name."""
+    if id(F) in _ROLES:
+        return _ROLES[id(F)]
+    lf = F.body(LOOP_FN)
+    cands = []
+    for bi, t in mir.calls(lf):
+        r = t.get("resolved") or t.get("callee") or ""
+        if r in F.fns and F.fns[r]["crate"] == "tx3_resolver" and not r.endswith("::{closure#0}") and r not in cands:
+            cands.append(r)
+    passes = []
+    for c in cands:
+        body = mir.inline_calls(F, F.body(c), want=same_crate_policy("tx3_resolver"), depth=3)
+        if any(is_trait_call(t, "tx3_tir::compile::Compiler", "compile") for bi, t in mir.calls(body)):
+            passes.append(c)
+    if len(passes) != 1:
+        raise BrokenCheck("resolve_tx: expected exactly one callee that (with its helpers) calls Compiler::compile, found %r" % passes)
+    _ROLES[id(F)] = (LOOP_FN, passes[0])
+    return _ROLES[id(F)]
+
+
+def pass_body(F):
+    """the pass function's CFG with the crate's helper functions inlined"""
+    _, p = resolver_roles(F)
+    return mir.inline_calls(F, F.body(p), want=same_crate_policy("tx3_resolver"), depth=3)
+
+
+def loop_body(F):
+    """resolve_tx's CFG with the crate's helpers (not the pass function) inlined"""
+    l, p = resolver_roles(F)
+    return mir.inline_calls(F, F.body(l), want=same_crate_policy("tx3_resolver", exclude=(p,)), depth=2)
+
+
+def typed_locals(fn, ty, user_only=False):
+    """locals of exactly this type (optionally only those that are source variables)"""
+    out = [i for i, t in enumerate(fn["locals"]) if t == ty]
+    if user_only:
+        named = {pl["l"] for n, pl in fn["vars"] if not pl["p"]}
+        out = [i for i in out if i in named]
+    return out
+
+
 def var_locals(fn, name):
     """locals bound to the source variable `name` (debug info), excluding upvar projections"""
     out = []
@@ -42,17 +105,17 @@ def option_switch(fn, local):
 def eval_pass_first_round_is_some(F):
     """in eval_pass, `Ok(None)` (= "nothing better, converged") is returned only when a previous evaluation was
     supplied: dominated by the Some edge of the match on the `last_eval` parameter.  Returns (bool, reason, fn)"""
-    f = F.body("tx3_resolver::eval_pass")
+    f = pass_body(F)
     cfg = mir.CFG(f)
     du = mir.DefUse(f)
-    les = var_locals(f, "last_eval")
+    les = typed_locals(f, OPT_REF_CT)
     if not les:
-        raise BrokenCheck("eval_pass has no `last_eval` variable: anchor changed")
+        raise BrokenCheck("the pass function takes no previous evaluation (no Option<&CompiledTx> local): anchor changed")
     sw = []
     for l in les:
         sw += option_switch(f, l)
     if not sw:
-        return False, "eval_pass does not match on its last_eval parameter", f
+        return False, "the pass function does not match on the previous evaluation it is given", f
     # Ok(None) returns
     none_returns = []
     some_returns = []
@@ -76,16 +139,55 @@ def eval_pass_first_round_is_some(F):
 
 def resolve_loop_facts(F):
     """facts about resolve_tx's loop: the variable holding the last evaluation, the eval_pass call, exits"""
-    f = F.body("tx3_resolver::resolve_tx")
+    _, pfn = resolver_roles(F)
+    f = loop_body(F)
     cfg = mir.CFG(f)
     du = mir.DefUse(f)
-    les = var_locals(f, "last_eval")
-    if len(les) != 1:
-        raise BrokenCheck("resolve_tx: expected one `last_eval` variable, found %d" % len(les))
-    le = les[0]
-    calls = [(bi, t) for bi, t in mir.calls(f) if call_matches(t, "tx3_resolver::eval_pass")]
+    calls = [(bi, t) for bi, t in mir.calls(f) if call_matches(t, pfn)]
     if not calls:
-        raise BrokenCheck("resolve_tx no longer calls eval_pass")
+        raise BrokenCheck("resolve_tx no longer calls its pass function")
+    # the variable holding the last evaluation: the Option<CompiledTx> whose reference is handed to the pass function
+    cands = set(typed_locals(f, OPT_CT))
+    les = set()
+    for bi, t in calls:
+        for a in t["args"]:
+            apl = mir.op_place(a)
+            if apl is None or f["locals"][apl["l"]] != OPT_REF_CT:
+                continue
+            for o in mir.provenance(f, du, a, transparent_extra=("std::option::Option::<T>::as_ref",)):
+                if o.kind in ("local", "agg") and getattr(o, "local", None) in cands:
+                    les.add(o.local)
+                elif o.kind == "agg":
+                    # `as_ref` of a variable that is only ever assigned aggregates: find it through the reference
+                    pass
+    if not les:
+        # fall back: walk the reference chain by hand (provenance stops at aggregates assigned to the variable)
+        for bi, t in calls:
+            for a in t["args"]:
+                st = [mir.op_place(a)["l"]] if mir.op_place(a) is not None else []
+                seen = set()
+                while st:
+                    x = st.pop()
+                    if x in seen:
+                        continue
+                    seen.add(x)
+                    if x in cands:
+                        les.add(x)
+                        continue
+                    for d in du.defs.get(x, []):
+                        if d[0] == "call":
+                            if (d[3].get("callee") or "") == "std::option::Option::<T>::as_ref" and d[3]["args"]:
+                                p2 = mir.op_place(d[3]["args"][0])
+                                if p2 is not None:
+                                    st.append(p2["l"])
+                        else:
+                            rv = d[3]["rv"]
+                            p2 = mir.op_place(rv.get("op")) if rv["k"] == "use" else (rv.get("pl") if rv["k"] == "ref" else None)
+                            if p2 is not None:
+                                st.append(p2["l"])
+    if len(les) != 1:
+        raise BrokenCheck("resolve_tx: expected one variable holding the last evaluation (an Option<CompiledTx> whose reference is handed to the pass function), found %d" % len(les))
+    le = sorted(les)[0]
     return f, cfg, du, le, calls
 
 
@@ -132,7 +234,11 @@ def resolve_unwrap_discharge(F, site):
         return None
     # the previous evaluation handed to eval_pass is this variable
     for bi, ct in calls:
-        a = ct["args"][3] if len(ct["args"]) > 3 else None
+        a = None
+        for cand in ct["args"]:
+            cpl = mir.op_place(cand)
+            if cpl is not None and f["locals"][cpl["l"]] == OPT_REF_CT:
+                a = cand
         if a is None:
             return None
         o4 = mir.provenance(f, du, a, transparent_extra=("std::option::Option::<T>::as_ref",))
@@ -179,7 +285,7 @@ def resolve_loop_exits(F):
                     # the matched value derives from the eval_pass call
                     dl = _switch_scrutinee(f, sb)
                     orig = mir.provenance(f, du, {"l": dl, "p": []}) if dl is not None else []
-                    if any(o.kind == "call" and o.callee.startswith("tx3_resolver::eval_pass") for o in orig):
+                    if any(o.kind == "call" and o.callee.startswith(resolver_roles(F)[1]) for o in orig):
                         conv = True
             how = _exit_condition(f, du, u)
             out.append(("converged" if conv else "unconverged: " + how, line,
